@@ -115,6 +115,31 @@ def raw_inputs(rng, shape):
         elif ch == 'P': v.append(rng.choice([0, 1, 2, 3, 0x7fffffff, rng.bits(31)]))
     return v
 
+SEARCH = {   # theorem -> (which, 32-bit?, raw op whose arguments the witness is)
+ 'scalar_mul_512_correct': (0, False, 'raw_scalar_mul_512'), 'scalar_sqr_512_correct': (1, False, 'raw_scalar_sqr_512'), 'scalar_reduce_512_correct': (2, False, 'raw_scalar_reduce_512'),
+ 'scalar8x32_mul_512_correct': (0, True, 'raw8x32_mul_512'), 'scalar8x32_sqr_512_correct': (1, True, 'raw8x32_sqr_512'), 'scalar8x32_reduce_512_correct': (2, True, 'raw8x32_reduce_512')}
+def search_failing_input(chk, thm):
+    """a kernel theorem over the regenerated code no longer checks: look for a concrete operand on which the compiled function
+    differs from an independent reference (drawn and compared inside the C harness: ~200k operands per second and core)"""
+    import subprocess, concurrent.futures
+    if thm not in SEARCH: return None
+    which, w32, op = SEARCH[thm]
+    impl = vlib.build_impl(chk.dir, 'impl_k32', ['-DUSE_FORCE_WIDEMUL_INT64=1']) if w32 else vlib.build_impl(chk.dir, 'impl_default')
+    per = chk.scale(400000, 6000000)
+    def one(seed):
+        p = subprocess.run([impl], input=('raw_search #%d #%d #%d\n' % (which, seed, per)).encode(), stdout=subprocess.PIPE, timeout=3000)
+        return p.stdout.decode().strip()
+    with concurrent.futures.ThreadPoolExecutor(16) as ex:
+        outs = list(ex.map(one, [chk.seed * 64 + i for i in range(16)]))
+    chk.notes.append('failing-input search for %s: %d operands drawn' % (thm, 16 * per))
+    for o in outs:
+        if o.startswith('#1 '):
+            line = op + ' ' + o[3:]
+            chk.violations.append({'kind': 'correspondence', 'class': 'kernel_proof_broken_and_failing_operand_found', 'case': line,
+                                   'impl': 'differs from the reference (schoolbook product / long division by n)', 'model': thm + ' does not check over the regenerated code', 'witness': line})
+            return line
+    return None
+
 def ct_obligations(chk, validate=True):
     """C06/C05: the branch-free primitives are inside the translator's subset (no branch, no loop, no variable
     index, no division), regenerated from the working tree; generated code validated against the compiled C"""
@@ -143,6 +168,7 @@ def kernel_obligations(chk):
         gv = os.path.join(vlib.COQ, 'Gen', fn.replace('secp256k1_', '') + '.v'); vop = os.path.join(vlib.COQ, vo)
         built = os.path.exists(vop) and os.path.getmtime(vop) >= os.path.getmtime(gv)
         chk.obligation('kernel theorem %s over regenerated %s' % (thm, fn), built, log2[-3000:])
+        if not built: search_failing_input(chk, thm)
     # the 32-bit-limb scalar code: translated with USE_FORCE_WIDEMUL_INT64, proved, validated against the int64 build below
     k32 = regenerate(K32_FUNCS)
     for key, (ok, msg) in k32.items():
@@ -154,6 +180,7 @@ def kernel_obligations(chk):
         gv = os.path.join(vlib.COQ, 'Gen', key + '.v'); vop = os.path.join(vlib.COQ, vo)
         built = os.path.exists(vop) and os.path.getmtime(vop) >= os.path.getmtime(gv)
         chk.obligation('kernel theorem %s over regenerated %s' % (thm, key), built, log3[-3000:])
+        if not built: search_failing_input(chk, thm)
     chk.extra['translated_functions'] = dict({fn: msg for fn, (ok, msg) in res.items()}, **{k: m for k, (ok, m) in k32.items()})
     chk.k32 = k32
     # translator validation: generated Gallina (extracted) vs the compiled C function
